@@ -36,7 +36,8 @@ type Options struct {
 
 const (
 	simrtImport   = "verifharness/simrt"
-	simsyncImport = "verifharness/simsync"
+	simsyncImport   = "verifharness/simsync"
+	simatomicImport = "verifharness/simatomic"
 )
 
 // RewriteRepo type-checks the packages of the module at repoDir (the current
@@ -79,7 +80,7 @@ func RewriteRepo(repoDir, outDir string, opt Options) (map[string]string, []Site
 			if strings.HasSuffix(filename, "_test.go") {
 				continue
 			}
-			edits, fsites, needRT, needSync := rewriteFile(p, f, rel, opt)
+			edits, fsites, needRT, needSync, needAtomic := rewriteFile(p, f, rel, opt)
 			if len(edits) == 0 {
 				continue
 			}
@@ -94,6 +95,9 @@ func RewriteRepo(repoDir, outDir string, opt Options) (map[string]string, []Site
 			}
 			if needSync {
 				imp += "; import __simsync \"" + simsyncImport + "\""
+			}
+			if needAtomic {
+				imp += "; import __simatomic \"" + simatomicImport + "\""
 			}
 			edits = append(edits, edit{off: p.Fset.Position(f.Name.End()).Offset, text: imp, ord: -1})
 			sort.SliceStable(edits, func(a, b int) bool {
@@ -172,7 +176,7 @@ func isNamed(t types.Type, pkg, name string) bool {
 	return n.Obj().Pkg().Path() == pkg && n.Obj().Name() == name
 }
 
-func rewriteFile(p *packages.Package, f *ast.File, rel string, opt Options) (edits []edit, sites []Site, needRT, needSync bool) {
+func rewriteFile(p *packages.Package, f *ast.File, rel string, opt Options) (edits []edit, sites []Site, needRT, needSync, needAtomic bool) {
 	info := p.TypesInfo
 	fset := p.Fset
 	ord := 0
@@ -252,6 +256,19 @@ func rewriteFile(p *packages.Package, f *ast.File, rel string, opt Options) (edi
 			}
 			if opt.Sync && inflector {
 				if id, ok := x.X.(*ast.Ident); ok {
+					if pn, ok := info.Uses[id].(*types.PkgName); ok && pn.Imported().Path() == "sync/atomic" {
+						// atomic.X -> __simatomic.X: the same operation preceded by a scheduling point
+						ord++
+						edits = append(edits, edit{off: fset.Position(id.Pos()).Offset, text: "__simatomic /*", ord: ord})
+						ord++
+						edits = append(edits, edit{off: fset.Position(id.End()).Offset, text: "*/", ord: ord})
+						sites = append(sites, Site{ID: siteID(id.Pos()) + "." + x.Sel.Name, Kind: "atomic"})
+						if !needAtomic {
+							ord++
+							edits = append(edits, edit{off: fset.Position(f.End()).Offset, text: "\nvar _ " + id.Name + ".Int32\n", ord: ord})
+						}
+						needAtomic = true
+					}
 					if pn, ok := info.Uses[id].(*types.PkgName); ok && pn.Imported().Path() == "sync" {
 						// replace the qualifier only: sync.X -> __simsync.X
 						ord++
